@@ -67,7 +67,7 @@ def box_coords(bb, p):
     return np.linalg.solve(np.asarray(bb.rotation, dtype=float), np.asarray(p, dtype=float) - np.asarray(bb.center, dtype=float))
 
 
-def classify(bb, p):
+def locate(bb, p):
     z = box_coords(bb, p)
     L = np.asarray(bb.limits, dtype=float)
     t = _tol(bb.center, L)
@@ -127,7 +127,7 @@ def make_limits(rng, d, pattern, scale):
 
 def make_specs(ctx):
     def contains_post(self, point, result):
-        cl, z = classify(self, point)
+        cl, z = locate(self, point)
         if cl == 'edge':
             ctx.event('boundary_ambiguous_contains')
             return True
@@ -142,7 +142,7 @@ def make_specs(ctx):
         return True
 
     def pdf_post(self, theta, result):
-        cl, z = classify(self, theta)
+        cl, z = locate(self, theta)
         L = np.asarray(self.limits, dtype=float)
         vol = float(np.prod(L[:, 1] - L[:, 0]))
         if cl == 'edge':
@@ -166,7 +166,7 @@ def make_specs(ctx):
             ctx.event('draws_checked')
             if self.contains(row):
                 continue
-            cl, z = classify(self, row)
+            cl, z = locate(self, row)
             if cl == 'out':
                 return 'drawn point is not contained in its region: box coordinates %s, limits %s' % (z.tolist(), np.asarray(self.limits).tolist())
             ctx.event('boundary_ambiguous')
@@ -409,7 +409,7 @@ def run_box(ctx, case):
         if np.asarray(draws).shape != (case['n'], d):
             raise Violation('sample-shape', 'sample(%d) returned shape %s' % (case['n'], np.asarray(draws).shape))
         for label, p in probe_points(rng, bb, Q, c, case['points']):
-            cl, _ = classify(bb, p)
+            cl, _ = locate(bb, p)
             if cl != label:
                 ctx.event('probe_label_lost')
                 continue
@@ -529,7 +529,7 @@ def run_post(ctx, case):
                 dist = objectives[i].value(theta)
                 if abs(dist - eps) <= 1e-12 * (1 + abs(eps)):
                     judged = False
-                cl, _ = classify(regions[i], theta)
+                cl, _ = locate(regions[i], theta)
                 if case['surrogate'] and cl == 'edge':
                     judged = False
                 inside_cut = dist <= eps
@@ -590,7 +590,7 @@ def run_post(ctx, case):
             vol = float(np.prod(L[:, 1] - L[:, 0]))
             for j in range(n2):
                 th = theta[i, j]
-                cl, z = classify(regions[i], th)
+                cl, z = locate(regions[i], th)
                 if cl == 'out':
                     raise Violation('sample-outside', 'posterior draw %d of region %d is outside that region: box coordinates %s, limits %s' % (
                         j, i, z.tolist(), L.tolist()))
